@@ -104,6 +104,23 @@ Proof.
       destruct (_ =? 0); [|discriminate]. destruct (swap_words _); discriminate.
 Qed.
 
+(* the loop completes only if every block, hence the whole buffer, is word-sized *)
+Lemma send_blocks_aligned : forall fuel block data ds u,
+  send_blocks fuel block data = (ds, Ok u) -> len data mod 4 = 0.
+Proof.
+  induction fuel as [|f IH]; intros block data ds u H.
+  - destruct data; [reflexivity|cbn in H; discriminate].
+  - destruct data as [|x l]; [reflexivity|].
+    cbn [send_blocks] in H. change (Z.to_nat BOOT_BYTE_SIZE) with 1024%nat in H.
+    destruct (boot_packet _ _ _ _ _) as [d| | |] eqn:E; cbn [cast_err] in H; try discriminate.
+    destruct (send_blocks f (block + 1) (skipn 1024 (x :: l))) as [ds' r] eqn:E2.
+    injection H as _ Hr. subst r. apply IH in E2.
+    assert (E1 : len (firstn 1024 (x :: l)) mod 4 = 0).
+    { destruct (Z.eq_dec (len (firstn 1024 (x :: l)) mod 4) 0) as [e|n]; [exact e|].
+      rewrite boot_packet_unaligned in E by exact n. discriminate. }
+    rewrite <- (firstn_skipn 1024 (x :: l)) at 1. rewrite len_app. lia.
+Qed.
+
 Lemma boot_packet_no_fuel cmd a1 a2 a3 data : boot_packet cmd a1 a2 a3 data <> OutOfFuel.
 Proof. unfold boot_packet. destruct (pack_fmt _ _); [|discriminate].
   destruct (_ =? 0); [|discriminate]. destruct (swap_words _); discriminate. Qed.
@@ -167,7 +184,8 @@ Lemma boot_core_inv host port image sv options clock dest ds fs :
     update_defaults (s_fields sv) options = Ok f1 /\
     update_defaults f1 (fill_times boot_fixed_fields clock 0) = Ok fs /\
     pack_struct (mksdef (s_size sv) fs) = Ok packed /\
-    128 <= len packed /\ len (expected_image image packed) < 32768.
+    128 <= len packed /\ len (expected_image image packed) < 32768 /\
+    len (expected_image image packed) mod 4 = 0.
 Proof.
   unfold boot_core. intros H.
   destruct (update_defaults (s_fields sv) options) as [f1| | |] eqn:E1; try discriminate.
@@ -185,6 +203,7 @@ Proof.
   exists f1, packed. repeat split; try assumption.
   - apply Z.ltb_ge in E4. lia.
   - apply Z.ltb_lt in E5. exact E5.
+  - eapply send_blocks_aligned. exact E8.
 Qed.
 
 Lemma update_defaults_no_fuel : forall u fs, update_defaults fs u <> OutOfFuel.
